@@ -14,6 +14,7 @@ from harness.lib.model import is_err, exc_code
 RULE = ('names: 0..8 components, types over every var-number size <= 65535, values empty/ASCII/binary/digest/'
         'reserved URI characters/252..300 bytes, typed numbers at every width boundary; URI strings: structured '
         'valid + a malformed corner list; wire: valid names + single-edit mutants; pairs of names for prefix/order; '
+        'the prefix test through every representation of both arguments (list, URI, canonical URI, wire, string list) incl. names with empty components; '
         'call sequences convert / edit the result in place / convert again (a conversion is a function of its argument). '
         'non-trivial = at least one component or a non-empty string; distinct by input hash')
 ASSUMPTIONS = ['CPython semantics of int(), str.split, bytes.hex/fromhex, struct are modelled (Base/Text.v, Base/PyPrim.v)']
@@ -255,6 +256,50 @@ def run(ctx):
             if spec != py:
                 ctx.violation('name comparison', 'canonical-order', f'python order {py} != canonical order {spec}', (a, b))
             ctx.case(('pair', tuple(a), tuple(b)), len(a) + len(b) > 0, None, 'pairs')
+    # the prefix test through every accepted representation of BOTH arguments (component list, shorthand URI,
+    # canonical URI, wire, list of per-component URI strings): all must agree with component-wise equality.
+    # Names with empty components (URIs ending in '//') and single trailing slashes are in the pool.
+    def canonical_numbers(n):
+        for c in n:
+            t, v = Component.get_type(c), bytes(Component.get_value(c))
+            if t in (50, 52, 54, 56, 58) and not (len(v) in (1, 2, 4, 8) and v == TVpack(int.from_bytes(v, 'big'))):
+                return False
+        return True
+
+    def reps(n):
+        out = [('list', list(n)), ('wire', bytes(Name.encode(n)))]
+        # the shorthand URI stands for the name only when its typed numbers are canonically encoded (the property's
+        # own restriction); the canonical URI always does
+        fs = [(Name.to_canonical_uri, 'curi')] + ([(Name.to_str, 'uri')] if canonical_numbers(n) else [])
+        for f, tag in fs:
+            try:
+                out.append((tag, f(n)))
+            except Exception:   # noqa
+                pass
+        try:
+            out.append(('strlist', [Component.to_canonical_uri(c) if Component.get_type(c) == 8 and b'%' not in bytes(c)[2:]
+                                    and b'=' not in bytes(c)[2:] else c for c in n]))
+        except Exception:   # noqa
+            pass
+        return out
+    empt = Component.from_bytes(b'')
+    ex = [[], [empt], [empt, empt]]
+    for (_, n0) in small[:ctx.n(12, 60)]:
+        ex += [list(n0) + [empt], list(n0) + [empt, empt], [empt] + list(n0)]
+    ex_names = [n for (_, n) in small[:ctx.n(25, 120)]] + ex
+    for a in ex_names:
+        ra = reps(a)
+        for b in rng.sample(ex_names, min(len(ex_names), ctx.n(12, 40))) + [a, list(a) + [empt], a[:-1]]:
+            want = len(a) <= len(b) and all(bytes(x) == bytes(y) for x, y in zip(a, b))
+            for ta, xa in ra:
+                for tb, xb in reps(b):
+                    if ta == 'list' and tb == 'list':
+                        continue
+                    r = impl(Name.is_prefix, xa, xb)
+                    if r[0] != 'ok' or bool(r[1]) != want:
+                        ctx.violation('Name.is_prefix', 'prefix-vs-componentwise',
+                                      f'is_prefix({ta}, {tb}) = {r[1:]}, component-wise equality says {want}', (xa, xb))
+            ctx.case(('pair-reps', tuple(a), tuple(b)), True, None, 'pairs.representations')
 
 
 def check_comp(ctx, M, Component, c, t, val):
